@@ -192,7 +192,7 @@ fn send_frame_bytes(to: &ExternalPid, body: &OwnedTerm) -> Vec<u8> {
     f
 }
 
-async fn run_script(connect: bool, steps: Vec<String>) -> String {
+async fn run_script(connect: bool, early: Vec<u8>, steps: Vec<String>) -> String {
     let mut out: Vec<String> = Vec::new();
     let mut node = Node::new(NODE_NAME, COOKIE);
     if let Err(e) = node.start(0).await {
@@ -206,9 +206,10 @@ async fn run_script(connect: bool, steps: Vec<String>) -> String {
         let port = listener.local_addr().unwrap().port();
         remote = format!("p{port}@127.0.0.1");
         let remote2 = remote.clone();
+        let early2 = early.clone();
         let acc = tokio::spawn(async move {
             let (mut s, _) = listener.accept().await.expect("accept");
-            peer_handshake(&mut s, crate::conn_flags(), &remote2).await.map(|_| s)
+            peer_handshake(&mut s, crate::conn_flags(), &remote2, &early2).await.map(|_| s)
         });
         if let Err(e) = node.connect(remote.clone()).await {
             return format!("connect-err {e}");
@@ -525,13 +526,15 @@ pub fn run_case(line: &str) -> String {
     let mut t = Toks::new(head);
     assert_eq!(t.next(), "node");
     let connect = t.next() == "1";
+    // optional: E<hex> = frames the peer sends in one write with its handshake ack
+    let early = if t.peek_done() { Vec::new() } else { unhex(t.next().trim_start_matches('E')) };
     let steps: Vec<String> = parts.map(|s| s.to_string()).collect();
     ensure_epmd();
-    let r = runtime().block_on(run_script(connect, steps.clone()));
+    let r = runtime().block_on(run_script(connect, early.clone(), steps.clone()));
     if r.starts_with("start-err") || r.starts_with("connect-err") {
         // the harness process that served EPMD may have exited between the check and the use: take over and retry once
         ensure_epmd();
-        return runtime().block_on(run_script(connect, steps));
+        return runtime().block_on(run_script(connect, early, steps));
     }
     r
 }
